@@ -70,6 +70,8 @@ static void gen_crystal(xv_rng *r, m_crystal *c, const char *forced_name) {
     /* values are multiples of 2^-10 so that they print exactly in a few characters (the file reader takes 99 characters per line) */
     for (k = 0; k < 3; k++) c->cell[k] = 2.0 + xv_below(r, 13 * 1024) / 1024.0;
     for (k = 3; k < 6; k++) c->cell[k] = xv_below(r, 4) == 0 ? 90.0 : 55.0 + xv_below(r, 70 * 1024) / 1024.0;
+    /* half of the cells are 3-decimal numbers instead (printed with 15 digits they read back as the same double, and they are exact in no narrower type) */
+    if (xv_below(r, 2)) { for (k = 0; k < 3; k++) c->cell[k] = (2000 + (double)xv_below(r, 13000)) / 1000.0; for (k = 3; k < 6; k++) if (c->cell[k] != 90.0) c->cell[k] = (55000 + (double)xv_below(r, 70000)) / 1000.0; }
     v = m_volume(c->cell);
     /* well-conditioned cells only: the volume formula cancels when 1-cos2a-cos2b-cos2g+2cacbcg is small */
     if (isfinite(v) && v > 0.3 * c->cell[0] * c->cell[1] * c->cell[2]) break;
@@ -78,7 +80,10 @@ static void gen_crystal(xv_rng *r, m_crystal *c, const char *forced_name) {
   if (xv_below(r, 40) == 0) { static const double bad[4][3] = { {60, 60, 125}, {130, 125, 120}, {55, 60, 120}, {100, 140, 130} }; int j = (int)xv_below(r, 4); c->cell[3] = bad[j][0]; c->cell[4] = bad[j][1]; c->cell[5] = bad[j][2]; }
   c->n_atom = xv_below(r, 16) ? 1 + xv_below(r, 12) : 0;     /* now and then a crystal without atoms (legal through Crystal_AddCrystal) */
   for (k = 0; k < c->n_atom; k++) { c->atom[k].Zatom = 1 + xv_below(r, 92); c->atom[k].fraction = xv_below(r, 3) ? 1.0 : (1 + xv_below(r, 1024)) / 1024.0;
-    c->atom[k].x = xv_below(r, 4096) / 4096.0; c->atom[k].y = xv_below(r, 4096) / 4096.0; c->atom[k].z = xv_below(r, 4096) / 4096.0; }
+    c->atom[k].x = xv_below(r, 4096) / 4096.0; c->atom[k].y = xv_below(r, 4096) / 4096.0; c->atom[k].z = xv_below(r, 4096) / 4096.0;
+    /* one coordinate and the occupancy carry a 2^-40 tail: exact in a double (and in 17 printed digits), lost in any narrower type on the way */
+    if (xv_below(r, 2)) { c->atom[k].x += 1.0 / 1099511627776.0; if (c->atom[k].fraction < 1.0) c->atom[k].fraction += 1.0 / 1099511627776.0; } }
+
 }
 static int m_find(const m_array *a, const char *name) { int k; for (k = 0; k < a->n; k++) if (!strcmp(a->c[k].name, name)) return k; return -1; }
 static int m_cmp(const void *x, const void *y) { return strcmp(((const m_crystal *)x)->name, ((const m_crystal *)y)->name); }
@@ -137,8 +142,8 @@ static void write_crystal_file(FILE *f, const m_crystal *c, int corrupt, xv_rng 
   int k;
   if (corrupt == 1) fprintf(f, "#S %s\n", c->name);                         /* malformed #S (number missing) */
   else fprintf(f, "#S %d %s\n", c->atom[0].Zatom, c->name);
-  if (corrupt == 2) fprintf(f, "#UCELL %.17g %.17g %.17g\n", c->cell[0], c->cell[1], c->cell[2]);   /* short UCELL */
-  else if (corrupt != 3) fprintf(f, "#UCELL %.17g %.17g %.17g %.17g %.17g %.17g\n", c->cell[0], c->cell[1], c->cell[2], c->cell[3], c->cell[4], c->cell[5]);
+  if (corrupt == 2) fprintf(f, "#UCELL %.15g %.15g %.15g\n", c->cell[0], c->cell[1], c->cell[2]);   /* short UCELL */
+  else if (corrupt != 3) fprintf(f, "#UCELL %.15g %.15g %.15g %.15g %.15g %.15g\n", c->cell[0], c->cell[1], c->cell[2], c->cell[3], c->cell[4], c->cell[5]);
   if (corrupt == 4) fprintf(f, "#UCELL 1 2 3 90 90 90\n");                    /* two UCELL lines */
   fprintf(f, "#USYSTEM generated\n#N 5\n#L AtomicNumber Fraction X Y Z\n");
   for (k = 0; k < (corrupt == 7 ? 0 : c->n_atom); k++) {
